@@ -34,7 +34,7 @@ PLAN = {
     "thorough": {"shards": 16, "shard_timeout": 3600, "case_timeout": 120, "inproc": 100000, "strace": 200, "failpoints": 5000, "sigkill": 500, "max_case_timeouts": 8},
 }
 THRESHOLDS = {
-    "quick": {"disk_reads_after_register": 3000, "rows_compared": 3000, "multi_objective_rows": 800, "extra_field_cells": 1500, "simplegp_runs": 10, "strace_runs": 6, "strace_writes": 100, "crash_files_checked": 40, "set:kill_points": 15, "only_best_runs": 60, "set:special_cells_seen": 12, "simplegp_ambiguous_runs": 10, "rows_of_lookalike_programs": 20, "field_configuration:empty+extra": 15, "field_configuration:explicit+extra": 15, "field_configuration:default+noextra": 15, "field_configuration:default+override": 10, "field_configuration:explicit+override": 10, "recorders_sharing_a_fields_dict": 15},
+    "quick": {"recorders_on_lazily_sized_problems": 20, "disk_reads_after_register": 3000, "rows_compared": 3000, "multi_objective_rows": 800, "extra_field_cells": 1500, "simplegp_runs": 10, "strace_runs": 6, "strace_writes": 100, "crash_files_checked": 40, "set:kill_points": 15, "only_best_runs": 60, "set:special_cells_seen": 12, "simplegp_ambiguous_runs": 10, "rows_of_lookalike_programs": 20, "field_configuration:empty+extra": 15, "field_configuration:explicit+extra": 15, "field_configuration:default+noextra": 15, "field_configuration:default+override": 10, "field_configuration:explicit+override": 10, "recorders_sharing_a_fields_dict": 15},
     "thorough": {"disk_reads_after_register": 80000, "crash_files_checked": 650, "set:kill_points": 60, "strace_runs": 35},
 }
 
@@ -112,6 +112,12 @@ def run_inproc(case, rec):
         return list(table[id(p)])
 
     prob = SingleObjectiveProblem(lambda p: table[id(p)][0], minimize=rng.random() < 0.5) if nobj == 1 else MultiObjectiveProblem([rng.random() < 0.5 for _ in range(nobj)], fm)
+    lazily_sized = nobj > 1 and pyrandom.Random(f"lazy-{case['seed']}").random() < 0.4
+    if lazily_sized:
+        # "When a bool is passed all the fitness components are minimized or maximized": the number of objectives is only
+        # known once an individual has been evaluated, so the standard columns cannot be named before the first row
+        prob = MultiObjectiveProblem(case["seed"] % 2 == 0, fm)
+        rec.count("recorders_on_lazily_sized_problems")
     path = os.path.join(core.SCRATCH, f"inproc-{case['seed']}.csv")
     def nasty(i):  # one special character at a time, chosen by the program (quoting must hold for each on its own)
         k = evo.stable_hash(evo.text(i.get_phenotype())) % len(NASTY)
@@ -159,6 +165,11 @@ def run_inproc(case, rec):
         rec.count("evaluations")
         data, complete, rows = parse_disk(path)
         names = [n for n, _ in model_fields]
+        if when == "after-construction" and lazily_sized and base_cfg == "default" and not data:
+            # the standard columns of a lazily sized problem cannot be known yet: an empty file is a valid prefix; the
+            # property speaks about the file after every REGISTRATION
+            rec.count("empty_file_before_the_first_registration_of_a_lazily_sized_problem")
+            return
         if not rows or rows[0] != names:
             rec.violation(f"csv:header-wrong:{when}", dict(wit, header=rows[0] if rows else None, expected=names))
             state["bad"] = True
